@@ -83,7 +83,7 @@ fn main() {
                     tier: tier.to_string(),
                     level: "model_checking".into(),
                     nworkers: std::env::var("VERIF_WORKERS").ok().and_then(|s| s.parse().ok()).unwrap_or(16),
-                    budget_s: std::env::var("VERIF_BUDGET_S").ok().and_then(|s| s.parse().ok()).unwrap_or(if tier == "thorough" { 900.0 } else { 32.0 }),
+                    budget_s: std::env::var("VERIF_BUDGET_S").ok().and_then(|s| s.parse().ok()).unwrap_or(if tier == "thorough" { 900.0 } else { 48.0 }),
                     seed,
                     validate_total: if tier == "thorough" { 320 } else { 48 },
                     rule,
